@@ -926,6 +926,39 @@ theorem t1_cmap_shapes :
     cmapMutex_ItemCount = ["acqW", "deferRelW", "len", "return"] := by
   decide
 
+/-- the statements of one `case` of a select, up to the next case / the end -/
+def isCaseLabel (e : String) : Bool :=
+  e == "case:recv:ctx.Done" || e == "case:send:locked" || e == "case:default" || e == "case:recv:closeCh"
+
+def caseSegments : List String → List (List String)
+  | [] => []
+  | e :: es =>
+    if isCaseLabel e then
+      (e :: es.takeWhile fun x => !isCaseLabel x && x != "endselect") :: caseSegments es
+    else caseSegments es
+
+/-- on a path that returns the context's error nothing is taken: the path is not the one that sent
+the token, and it contains no RWMutex acquisition (a give-back would have to return BOTH) -/
+def errPathHoldsNothing (seg : List String) : Bool :=
+  !seg.contains "return:ctx.Err" ||
+    (!seg.contains "case:send:locked" && !seg.contains "rw:Lock" && !seg.contains "rw:RLock")
+
+/-- lock.Context, statement by statement (= `Context.step`): `Lock/RLock` = one select; its
+`ctx.Done()` case returns `ctx.Err()` at once; its token-send case takes the inner RWMutex and
+returns nil — no other return path, no re-check after acquiring; `Unlock/RUnlock` = unlock the
+RWMutex, then give the token back. In particular no path that reports an error has touched the
+token or the RWMutex. -/
+theorem t1_context_shapes :
+    context_methods = ["Lock", "Unlock", "RLock", "RUnlock"] ∧
+    context_Lock_body = ["select", "case:recv:ctx.Done", "return:ctx.Err", "case:send:locked", "rw:Lock",
+      "return:nil", "endselect"] ∧
+    context_RLock_body = ["select", "case:recv:ctx.Done", "return:ctx.Err", "case:send:locked", "rw:RLock",
+      "return:nil", "endselect"] ∧
+    context_Unlock_body = ["rw:Unlock", "recv:locked"] ∧
+    context_RUnlock_body = ["rw:RUnlock", "recv:locked"] ∧
+    ((caseSegments context_Lock_body) ++ (caseSegments context_RLock_body)).all errPathHoldsNothing = true := by
+  decide
+
 /-- The `select` statements have exactly the cases the models give them: in particular
 `OuterCancel.RLock` can return the context's error only from its FIRST select (before the hold is
 queued) — afterwards only the handler answers, so an acquisition that reports an error was never
